@@ -80,9 +80,12 @@ def cases(draw):
         steps.append({"how": draw(st.sampled_from(["validates", "create-version", "create-noversion", "extend-version"])),
                       "base": draw(st.sampled_from(impl.DRAFTS)),
                       "id": draw(st.sampled_from(["http://verif.test/meta-a#", "http://verif.test/meta-b",
-                                                  "http://verif.test/meta-c#", IDS[4], "urn:verif:meta"])),
+                                                  "http://verif.test/meta-c#", IDS[4], "urn:verif:meta",
+                                                  # spellings the registry's key normalisation changes
+                                                  "HTTP://verif.test/meta-d#", "http://verif.test/meta-e?"])),
                       "idkw": draw(st.sampled_from(["$id", "id"])),
-                      "version": draw(st.sampled_from(["verif-a", "verif-b", "verif-a", None]))})
+                      # (a version called "draft4" yields a class NAMED Draft4Validator: still not jsonschema.Draft4Validator)
+                      "version": draw(st.sampled_from(["verif-a", "verif-b", "verif-a", None, "draft4", "draft7"]))})
     return {"mode": mode, "steps": steps}
 
 
@@ -358,6 +361,19 @@ class C20(Prop):
                                  "after step %d %r: $schema=%r selects %s (warned=%r), model %s (warn=%r)" % (
                                      n, st_, spelling, got.__name__, warned, want.__name__, warn))
                         return
+            # the command line's --validator takes a name: a bare one means the attribute of the jsonschema package
+            from jsonschema import cli
+            for d in impl.DRAFTS:
+                try:
+                    got = cli.parse_args(["--validator", "Draft%dValidator" % d, "schema.json"])["validator"]
+                except BaseException as e:
+                    res.fail(("registry", "cli-validator-name-raises", impl.tname(e)), "after step %d %r" % (n, st_))
+                    return
+                if got is not impl.CLS[d]:
+                    res.fail(("registry", "cli-validator-name-captured"),
+                             "after step %d %r: --validator Draft%dValidator designates %r from module %s" % (
+                                 n, st_, d, got, getattr(got, "__module__", "?")))
+                    return
         res.nontrivial = len(case["steps"]) >= 2
 
 
